@@ -55,6 +55,7 @@ type State struct {
 	Trace  []string            // human-readable path (callee names, branch outcomes)
 	Dirty  map[string]bool     // arrays written on this path (names with prefix H:/M:/G:)
 	DirtyCells map[*Cell]bool
+	Shared map[*Cell]string // variables captured by a goroutine this function started (value: where)
 	retSite string
 	topFrame *Frame
 	pcSet  map[string]bool
@@ -91,6 +92,12 @@ func (s *State) clone() *State {
 	n.DirtyCells = make(map[*Cell]bool, len(s.DirtyCells))
 	for k, v := range s.DirtyCells {
 		n.DirtyCells[k] = v
+	}
+	if len(s.Shared) > 0 {
+		n.Shared = make(map[*Cell]string, len(s.Shared))
+		for k, v := range s.Shared {
+			n.Shared[k] = v
+		}
 	}
 	n.Defs = make(map[string]bool, len(s.Defs))
 	for k, v := range s.Defs {
